@@ -9,6 +9,8 @@ import (
 
 	"pgregory.net/rapid"
 
+	authtypes "github.com/cosmos/cosmos-sdk/x/auth/types"
+
 	"github.com/irismod/service/types"
 )
 
@@ -1380,7 +1382,13 @@ func (g *GenState) genOfKind(t *rapid.T, kind string) Action {
 		}
 		return a
 	case KSetWithdr:
-		return Action{Kind: KSetWithdr, Signer: pick(t, "signer", Signers), Withdraw: pick(t, "waddr", AllAddrs())}
+		wa := pick(t, "waddr", AllAddrs())
+		if pct(t, "waddr_module_account", 5) {
+			// one of the service module's own accounts: must be refused (earnings withdrawn into it would
+			// sit next to the deposits / escrowed fees without belonging to either: D26)
+			wa = pick(t, "waddr_module", []string{hx(authtypes.NewModuleAddress(types.DepositAccName)), hx(authtypes.NewModuleAddress(types.RequestAccName))})
+		}
+		return Action{Kind: KSetWithdr, Signer: pick(t, "signer", Signers), Withdraw: wa}
 	case KWithdraw:
 		signer := pick(t, "signer", Signers)
 		a := Action{Kind: KWithdraw, Signer: signer}
